@@ -237,7 +237,7 @@ def _scan(f, tr, trigger, summ, env):
                         return out
                     pending = None
                     continue
-                if kind == 'var' and ref and (it.path or '') == ref:
+                if kind == 'var' and ref and ((it.path or '') == ref or (it.path or '') == 'call(%s)' % trigger.get('callee')):
                     if it.val:
                         pub = obj; alias_this = alias
                     else:
